@@ -67,7 +67,7 @@ Definition applied4 : variant := mkvariant true true true true false false.     
 Definition repaired : variant := mkvariant true true true true true true.         (* all proposed fixes applied *)
 (* the code the correspondence check compares with; theorems never mention `cur`, so this is
    the only line to change when a proposed fix is applied to /repo *)
-Definition cur : variant := applied4.
+Definition cur : variant := repaired.
 
 (* id -1 stands for "a fresh id drawn from AbstractMessage.ids" *)
 Definition fresh_id : Z := (-1)%Z.
